@@ -26,14 +26,16 @@ Theorem C21_executor_progress files jobs stream status st :
 Proof. exact (executor_progress files jobs stream status st). Qed.
 Print Assumptions C21_executor_progress.
 
-(* every subset of crashing workers (cut f = Some k), every crash point between
-   records, every job count, every schedule: the parent never exits early; once all
-   files are finished, every file's findings are exactly the records it sent (all of
-   them for a worker that did not crash), a file has exactly one internal error,
-   carrying its status, iff its worker ended by a signal or a non-zero exit status
+(* every subset of crashing workers, every crash point - between two records (j = 0) or
+   inside a record (j bytes of the next record written, j < its length; the next record is a
+   report record or CHILD_END) -, every job count, every schedule: the parent never exits
+   early; once all files are finished, every file's findings are exactly the whole records its
+   worker sent (all of them for a worker that did not crash), a file has exactly one internal
+   error, carrying its status, iff its worker ended by a signal or a non-zero exit status
    (otherwise none), and result > 0 as soon as one worker crashed *)
-Theorem C21_crash_contained_at_boundaries files jobs fr res cut status :
+Theorem C21_crash_contained files jobs fr res cut status :
   (forall f, forallb good_frame (fr f) = true) -> (forall f, (res f <= SIZE_MAX)%N) ->
+  (forall f k j, cut f = Some (k, j) -> (j < length (next_rec fr res f k))%nat) ->
   forall es st,
     exec files jobs (stream fr res cut) status init es = Some st ->
     halted st = None /\
@@ -41,37 +43,38 @@ Theorem C21_crash_contained_at_boundaries files jobs fr res cut status :
        filter (is_finding_of f) (log st) = rev (findings_of f (eff fr cut f))
        /\ filter (is_internal_of f) (log st) = (if bad_stat (status f) then [InternalErr f (status f)] else [])
        /\ (cut f <> None -> (0 < result st)%N)).
-Proof. intros G R. exact (crash_contained_at_boundaries files jobs fr res cut status G R). Qed.
-Print Assumptions C21_crash_contained_at_boundaries.
+Proof. intros G R C. exact (crash_contained files jobs fr res cut status G R C). Qed.
+Print Assumptions C21_crash_contained.
 
-(* the stream in that theorem is what the code's writer produces *)
+(* the stream in that theorem is what the code's writer produces up to the crash point *)
 Theorem C21_stream_spec fr res cut f :
-  stream fr res cut f = match cut f with None => full_stream (fr f) (res f) | Some k => cut_stream (fr f) k end.
+  stream fr res cut f = match cut f with
+                        | None => full_stream (fr f) (res f)
+                        | Some (k, j) => cut_stream (fr f) k ++ firstn j (next_rec fr res f k)
+                        end.
 Proof. exact (stream_spec fr res cut f). Qed.
 Print Assumptions C21_stream_spec.
 
-(* a worker dying inside a record: the parent takes an exit(EXIT_FAILURE) branch of
-   handleRead, the other worker's finding is never reported, no internal error names
-   the dead worker's file *)
-Theorem C21_crash_mid_message_refuted :
-  exists es st,
-    exec rf_files 2 rf_stream rf_status init es = Some st
-    /\ halted st = Some 1%N
-    /\ (forall e, step rf_files 2 rf_stream rf_status st e = None)
-    /\ findings_of 1 (rf_fr 1%N) <> []
-    /\ filter (is_finding_of 1) (log st) = []
-    /\ filter (is_internal_of 0) (log st) = [].
-Proof. exact crash_mid_message_refuted. Qed.
-Print Assumptions C21_crash_mid_message_refuted.
+(* the findings reported for a crashed file are its first k records *)
+Theorem C21_eff_spec fr cut f :
+  eff fr cut f = match cut f with None => fr f | Some (k, _) => firstn k (fr f) end.
+Proof. reflexivity. Qed.
 
-(* premises are inhabited: a concrete contained crash at a record boundary *)
-Example C21_boundary_case :
-  exists st, exec rf_files 2 (fun f => if (f =? 0)%N then cut_stream (rf_fr 0%N) 0 else full_stream (rf_fr 1%N) 1)
-                  rf_status init [EFork 0; EFork 1; ERead 0; ERead 1; ERead 1; EReap 1; EReap 0]%N = Some st
+(* the former counterexample (worker 0 dies after the type byte and two bytes of the length,
+   fixed by 532f6fa in /repo): now contained; it also shows the premises are inhabited *)
+Example C21_mid_message_case_contained :
+  exists st, exec rf_files 2 rf_stream rf_status init
+                  [EFork 0; EFork 1; ERead 0; ERead 1; ERead 1; EReap 1; EReap 0]%N = Some st
              /\ halted st = None /\ done rf_files st = true /\ (0 < result st)%N
              /\ filter (is_finding_of 1) (log st) = [Finding 1 w_a]
              /\ filter (is_internal_of 0) (log st) = [InternalErr 0 (ExitCode 3)].
-Proof. exact boundary_case_contained. Qed.
+Proof. exact mid_message_case_contained. Qed.
+
+Example C21_mid_message_case_hyps :
+  (forall f, forallb good_frame (rf_fr f) = true) /\
+  (forall f k j, (fun f => if (f =? 0)%N then Some (0%nat, 3%nat) else None) f = Some (k, j) ->
+                 (j < length (next_rec rf_fr (fun _ => 1%N) f k))%nat).
+Proof. exact mid_message_case_hyps. Qed.
 
 Example C21_good_frame_inhabited : forallb good_frame (rf_fr 0%N) = true.
 Proof. vm_compute. reflexivity. Qed.
